@@ -2,6 +2,7 @@
 //! deskset: deterministic simulation with fault injection for deb822-lossless.
 mod core;
 mod gen;
+mod model;
 mod scn;
 
 use crate::core::driver::{self, Scenario, Tier};
@@ -36,6 +37,8 @@ fn main() {
     let code = match rest[0].as_str() {
         "C01" => dispatch::<scn::c01_load::C01>(cmd, rest),
         "C02" => dispatch::<scn::c02_total::C02>(cmd, rest),
+        "C04" => dispatch::<scn::c04_c05_session::C04>(cmd, rest),
+        "C05" => dispatch::<scn::c04_c05_session::C05>(cmd, rest),
         "C19" => dispatch::<scn::c19_pgp::C19>(cmd, rest),
         other => {
             eprintln!("property {other} is not claimed by this engine");
